@@ -2,6 +2,9 @@ import Mathlib.Analysis.SpecialFunctions.Trigonometric.Basic
 import Mathlib.Analysis.SpecialFunctions.ExpDeriv
 import Mathlib.Analysis.Calculus.IteratedDeriv.Defs
 import Mathlib.Data.Nat.Choose.Sum
+import Mathlib.Analysis.SpecialFunctions.ImproperIntegrals
+import Mathlib.Analysis.SpecialFunctions.Gaussian.GaussianIntegral
+import Mathlib.MeasureTheory.Measure.Lebesgue.Basic
 import Mathlib.Tactic
 import Polar.TrigMoment
 
@@ -14,6 +17,7 @@ C13 — the combination formulas behind `FunctionalAssignment.get_func_moment`.
 * `trig_moment_formula`   : the coded formula (table, divisor, real part) is Σ p_j x_j^a sin^b x_j cos^c x_j
 * `exp_moment_formula`    : Σ p_j x_j^a e^{c x_j} = M^(a)(c)
 * `plan_coded_partial`, `plan_coded_counterexample` : the guard of `get_func_moment` as coded
+* `mgfExists{Exponential,Gamma,Laplace}_correct` : the model of `mgf_exists_at` decides integrability of e^{tx} f(x)
 -/
 
 open Complex Finset
@@ -443,5 +447,186 @@ theorem plan_coded_counterexample :
     nlinarith
 
 end guard
+
+section existence
+open MeasureTheory Set
+
+/-! ### existence of exponential moments: the guards `mgf_exists_at` decide integrability -/
+
+lemma not_integrableOn_of_const_le {f : ℝ → ℝ} {s : Set ℝ} (hs : MeasurableSet s) (hvol : volume s = ⊤)
+    {m : ℝ} (hm : 0 < m) (hle : ∀ x ∈ s, m ≤ f x) : ¬ IntegrableOn f s := by
+  intro h
+  have hconst : IntegrableOn (fun _ : ℝ => m) s := by
+    refine Integrable.mono' h aestronglyMeasurable_const ?_
+    rw [ae_restrict_iff' hs]
+    refine Filter.Eventually.of_forall (fun x hx => ?_)
+    rw [Real.norm_eq_abs, abs_of_pos hm]
+    exact hle x hx
+  rw [integrableOn_const_iff] at hconst
+  rcases hconst with h0 | hfin
+  · exact (ne_of_gt hm) (by simpa using h0)
+  · rw [hvol] at hfin; exact lt_irrefl _ hfin
+
+theorem integrableOn_exp_mul_Ioi_iff (a c : ℝ) :
+    IntegrableOn (fun x : ℝ => Real.exp (a * x)) (Ioi c) ↔ a < 0 := by
+  constructor
+  · intro h
+    by_contra hna
+    have ha : 0 ≤ a := not_lt.mp hna
+    refine not_integrableOn_of_const_le measurableSet_Ioi Real.volume_Ioi (Real.exp_pos (a * c)) ?_ h
+    intro x hx
+    exact Real.exp_le_exp.mpr (mul_le_mul_of_nonneg_left (le_of_lt hx) ha)
+  · intro h
+    exact integrableOn_exp_mul_Ioi h c
+
+theorem integrableOn_exp_mul_Iic_iff (a c : ℝ) :
+    IntegrableOn (fun x : ℝ => Real.exp (a * x)) (Iic c) ↔ 0 < a := by
+  constructor
+  · intro h
+    by_contra hna
+    have ha : a ≤ 0 := not_lt.mp hna
+    refine not_integrableOn_of_const_le measurableSet_Iic Real.volume_Iic (Real.exp_pos (a * c)) ?_ h
+    intro x hx
+    have hx' : x ≤ c := hx
+    exact Real.exp_le_exp.mpr (by nlinarith)
+  · intro h
+    exact integrableOn_exp_mul_Iic h c
+
+lemma integrableOn_const_mul_iff' {f : ℝ → ℝ} {s : Set ℝ} {C : ℝ} (hC : C ≠ 0) :
+    IntegrableOn (fun x => C * f x) s ↔ IntegrableOn f s := by
+  unfold IntegrableOn
+  exact integrable_const_mul_iff (IsUnit.mk0 C hC) f
+
+/-- integrand of `E[e^{tX}]`, `X ~ Exponential(λ)` (density `λ e^{-λx}` on `(0,∞)`) -/
+noncomputable def expMgfIntegrand (lam t : ℝ) (x : ℝ) : ℝ := Real.exp (t * x) * (lam * Real.exp (-(lam * x)))
+
+theorem exponential_mgf_exists_iff {lam : ℝ} (hl : 0 < lam) (t : ℝ) :
+    IntegrableOn (expMgfIntegrand lam t) (Ioi 0) ↔ t < lam := by
+  have hfun : expMgfIntegrand lam t = fun x => lam * Real.exp ((t - lam) * x) := by
+    funext x
+    unfold expMgfIntegrand
+    rw [show (t - lam) * x = t * x + -(lam * x) by ring, Real.exp_add]
+    ring
+  rw [hfun, integrableOn_const_mul_iff' hl.ne', integrableOn_exp_mul_Ioi_iff]
+  constructor <;> intro h <;> linarith
+
+/-- the model's `Exponential.mgf_exists_at` (`t < lamb`) decides existence of the mgf -/
+theorem mgfExistsExponential_correct (lam t : ℚ) (hl : 0 < lam) :
+    mgfExistsExponential lam t = true ↔ IntegrableOn (expMgfIntegrand (lam : ℝ) (t : ℝ)) (Ioi 0) := by
+  rw [exponential_mgf_exists_iff (by exact_mod_cast hl)]
+  unfold mgfExistsExponential
+  simp
+
+example : mgfExistsExponential 2 1 = true ∧ mgfExistsExponential 2 2 = false := by decide
+
+/-- integrand of `E[e^{tX}]`, `X ~ Gamma(k, θ)` (shape, scale), without the positive normalising constant -/
+noncomputable def gammaMgfIntegrand (k theta t : ℝ) (x : ℝ) : ℝ :=
+  Real.exp (t * x) * (x ^ (k - 1) * Real.exp (-(x / theta)))
+
+theorem gamma_mgf_exists_iff {k theta : ℝ} (hk : 0 < k) (_hth : 0 < theta) (t : ℝ) :
+    IntegrableOn (gammaMgfIntegrand k theta t) (Ioi 0) ↔ t < 1 / theta := by
+  have hfun : gammaMgfIntegrand k theta t = fun x => x ^ (k - 1) * Real.exp (-(1 / theta - t) * x ^ (1:ℝ)) := by
+    funext x
+    unfold gammaMgfIntegrand
+    rw [Real.rpow_one, show -(1 / theta - t) * x = t * x + -(x / theta) by ring, Real.exp_add]
+    ring
+  constructor
+  · intro h
+    by_contra hlt
+    have hle : 1 / theta ≤ t := not_lt.mp hlt
+    apply not_integrableOn_Ioi_rpow (k - 1)
+    refine Integrable.mono' h ((measurable_id.pow_const _).aestronglyMeasurable) ?_
+    rw [ae_restrict_iff' measurableSet_Ioi]
+    refine Filter.Eventually.of_forall (fun x hx => ?_)
+    have hx0 : (0:ℝ) < x := hx
+    have hp : 0 ≤ x ^ (k - 1) := Real.rpow_nonneg hx0.le _
+    rw [hfun]
+    simp only [Real.norm_eq_abs, abs_of_nonneg hp, Real.rpow_one]
+    have h1 : 1 ≤ Real.exp (-(1 / theta - t) * x) := by
+      apply Real.one_le_exp
+      nlinarith
+    nlinarith
+  · intro h
+    rw [hfun]
+    exact integrableOn_rpow_mul_exp_neg_mul_rpow (by linarith) one_pos (by linarith)
+
+theorem mgfExistsGamma_correct (k theta t : ℚ) (hk : 0 < k) (hth : 0 < theta) :
+    mgfExistsGamma theta t = true ↔
+      IntegrableOn (gammaMgfIntegrand (k : ℝ) (theta : ℝ) (t : ℝ)) (Ioi 0) := by
+  rw [gamma_mgf_exists_iff (by exact_mod_cast hk) (by exact_mod_cast hth)]
+  unfold mgfExistsGamma
+  simp only [decide_eq_true_eq]
+  rw [← Rat.cast_lt (K := ℝ)]
+  push_cast
+  rfl
+
+/-- integrand of `E[e^{tX}]`, `X ~ Laplace(μ, b)` -/
+noncomputable def laplaceMgfIntegrand (mu b t : ℝ) (x : ℝ) : ℝ :=
+  Real.exp (t * x) * (Real.exp (-(|x - mu| / b)) / (2 * b))
+
+theorem laplace_mgf_exists_iff (mu : ℝ) {b : ℝ} (hb : 0 < b) (t : ℝ) :
+    Integrable (laplaceMgfIntegrand mu b t) ↔ |t| < 1 / b := by
+  have hR : IntegrableOn (laplaceMgfIntegrand mu b t) (Ioi mu) ↔ t < 1 / b := by
+    have heq : EqOn (laplaceMgfIntegrand mu b t)
+        (fun x => (Real.exp (mu / b) / (2 * b)) * Real.exp ((t - 1 / b) * x)) (Ioi mu) := by
+      intro x hx
+      have hx' : mu < x := hx
+      unfold laplaceMgfIntegrand
+      simp only
+      rw [abs_of_pos (by linarith : 0 < x - mu),
+        show (t - 1 / b) * x = t * x + -((x - mu) / b) + -(mu / b) by ring, Real.exp_add, Real.exp_add,
+        Real.exp_neg (mu / b)]
+      field_simp
+    have hC : Real.exp (mu / b) / (2 * b) ≠ 0 := by positivity
+    have hcongr : IntegrableOn (laplaceMgfIntegrand mu b t) (Ioi mu) ↔
+        IntegrableOn (fun x => (Real.exp (mu / b) / (2 * b)) * Real.exp ((t - 1 / b) * x)) (Ioi mu) :=
+      ⟨fun h => h.congr_fun heq measurableSet_Ioi, fun h => h.congr_fun heq.symm measurableSet_Ioi⟩
+    rw [hcongr, integrableOn_const_mul_iff' hC, integrableOn_exp_mul_Ioi_iff]
+    constructor <;> intro h <;> linarith
+  have hL : IntegrableOn (laplaceMgfIntegrand mu b t) (Iic mu) ↔ -(1 / b) < t := by
+    have heq : EqOn (laplaceMgfIntegrand mu b t)
+        (fun x => (Real.exp (-(mu / b)) / (2 * b)) * Real.exp ((t + 1 / b) * x)) (Iic mu) := by
+      intro x hx
+      have hx' : x ≤ mu := hx
+      unfold laplaceMgfIntegrand
+      simp only
+      rw [abs_of_nonpos (by linarith : x - mu ≤ 0),
+        show (t + 1 / b) * x = t * x + -(-(x - mu) / b) + (mu / b) by ring, Real.exp_add, Real.exp_add,
+        Real.exp_neg (mu / b)]
+      field_simp
+    have hC : Real.exp (-(mu / b)) / (2 * b) ≠ 0 := by positivity
+    have hcongr : IntegrableOn (laplaceMgfIntegrand mu b t) (Iic mu) ↔
+        IntegrableOn (fun x => (Real.exp (-(mu / b)) / (2 * b)) * Real.exp ((t + 1 / b) * x)) (Iic mu) :=
+      ⟨fun h => h.congr_fun heq measurableSet_Iic, fun h => h.congr_fun heq.symm measurableSet_Iic⟩
+    rw [hcongr, integrableOn_const_mul_iff' hC, integrableOn_exp_mul_Iic_iff]
+    constructor <;> intro h <;> linarith
+  rw [← integrableOn_univ, ← Iic_union_Ioi (a := mu), integrableOn_union, hL, hR, abs_lt]
+
+theorem mgfExistsLaplace_correct (mu b t : ℚ) (hb : 0 < b) :
+    mgfExistsLaplace b t = true ↔ Integrable (laplaceMgfIntegrand (mu : ℝ) (b : ℝ) (t : ℝ)) := by
+  rw [laplace_mgf_exists_iff _ (by exact_mod_cast hb)]
+  unfold mgfExistsLaplace
+  simp only [decide_eq_true_eq]
+  have : (if t < 0 then -t else t) = |t| := by
+    split_ifs with h
+    · rw [abs_of_neg h]
+    · rw [abs_of_nonneg (not_lt.mp h)]
+  rw [this, ← Rat.cast_lt (K := ℝ)]
+  push_cast
+  rfl
+
+
+/-- non-vacuity: an existing and a missing exponential moment of each restricted family -/
+example : IntegrableOn (expMgfIntegrand 2 1) (Ioi 0) ∧ ¬ IntegrableOn (expMgfIntegrand 2 2) (Ioi 0) :=
+  ⟨(exponential_mgf_exists_iff (by norm_num) 1).mpr (by norm_num),
+   fun h => absurd ((exponential_mgf_exists_iff (by norm_num) 2).mp h) (by norm_num)⟩
+example : IntegrableOn (gammaMgfIntegrand 2 (1/2) 1) (Ioi 0) ∧ ¬ IntegrableOn (gammaMgfIntegrand 2 (1/2) 2) (Ioi 0) :=
+  ⟨(gamma_mgf_exists_iff (by norm_num) (by norm_num) 1).mpr (by norm_num),
+   fun h => absurd ((gamma_mgf_exists_iff (by norm_num) (by norm_num) 2).mp h) (by norm_num)⟩
+example : Integrable (laplaceMgfIntegrand 1 (1/2) 1) ∧ ¬ Integrable (laplaceMgfIntegrand 1 (1/2) (-2)) :=
+  ⟨(laplace_mgf_exists_iff 1 (by norm_num) 1).mpr (by norm_num [abs_lt]),
+   fun h => absurd ((laplace_mgf_exists_iff 1 (by norm_num) (-2)).mp h) (by norm_num [abs_lt])⟩
+
+end existence
 
 end TrigMoment
